@@ -1,2 +1,253 @@
-(* placeholder *)
-From GT Require Import Base.Prelude.
+(* C19 — purity and determinism of the library operations; this file: the part that can be expressed in the model,
+   namely "calling an operation again on equal arguments, in a fresh process with a different string-hash seed,
+   yields a result with the same language, and the identical value for enumerators and acceptance tests".
+
+   (a) How hash-seed dependence is modelled.  Every choice of the Python code that depends on the hash seed is a
+       parameter of the model: `pick : picker _` for set.pop() / set_element() (any function returning a member and the
+       remaining members, `picker_ok`), `ord`, `ordB`, `ordV`, `order` for the iteration order of a set (any
+       permutation), `rep` for next(iter(S)), and the order in which the elements of a field that stands for a Python
+       set or dict are listed.  The theorems of C01-C11, C14, C18 and C20 are all stated for arbitrary admissible values
+       of these parameters and characterise the result by a specification that does not mention them; order
+       independence is therefore their corollary.  The corollaries are collected below (proofs: Proofs/PurityProofs.v):
+         C19_eclose_*            epsilon closure (set.pop)                      same set, same size;
+         C19_minimisers_*        dfa_minimize / dfa_quotient / dfa_hopcroft     any two runs of any two of them: same
+                                 language, same alphabet, same number of states, same states up to listing order;
+         C19_iso_*               dfa_isomorphic / dfa_isomorphic1               identical verdict, also across routines;
+         C19_dfa_to_regexp_*     elimination order                              same language, same failure behaviour;
+         C19_elim_unit_*, C19_to_chomsky_*, C19_cfg_accepts_*, C19_cfg_words_*  iteration order over the variables
+                                 (and the fresh-name stream): same rule set after phase 3, same language after the
+                                 conversion, identical membership verdict, same set of enumerated words;
+         C19_pda_*               set.pop in the PDA closure (and the limit)     identical verdict / same set of words /
+                                 same set of configurations, whenever neither run was truncated;
+         C19_nfa_simulate_*      picks in nfa_simulate_word                     a checked run for both picks or None for both;
+         C19_dfa_accepts_perm, C19_dfa_wf_perm, C19_nfa_accepts_perm, C19_nfa_wf_perm, C19_nfa_accepts_same
+                                 listing order of the sets Q, Sigma, F, of every target set and of the transition dict:
+                                 identical acceptance verdict (including the KeyError outcome None for DFAs), validity
+                                 preserved.  `NoDup (map fst (dD D))` = the keys of a Python dict are unique.
+       Operations whose model has no such parameter (dfa_accepts, dfa_words, nfa_accepts, nfa_words, nfa_to_dfa, the
+       closure constructions, regexp and TM routines, CYK on CNF grammars, parser and printer) are Gallina functions
+       of their arguments: equal arguments give equal results by reflexivity, nothing is to be proved.
+   (b) Residue: argument preservation ("an operation leaves its arguments unchanged") and independence of the call
+       history cannot be expressed in a purely functional model — a Gallina function has no way of modifying its
+       argument or of keeping state between calls.  They are established by the harness only (deep snapshots of the
+       arguments before/after each call, second call in the same process, call after a prefix of other calls:
+       harness/props/C19.py, flags judged by Judge/C19_judge.v).
+   (c) Logging: `log` returns nothing and its output is not read back by any routine; the models do not contain it, so
+       logging cannot influence a model result.  That the Python results do not change with logging switched on is
+       again checked by the harness.
+   Not covered by a theorem here: the enumerators dfa_words / nfa_words under a permutation of the listing of Sigma and
+   of the dicts (the result list is permuted; as a set it is fixed by C02_dfa / C02_nfa for valid automata). *)
+From GT Require Import Base.Prelude Base.Sort Model.DFA Model.NFA Model.Minimize Model.Iso Model.GNFA Model.Regexp Model.CFG
+  Model.Chomsky Model.CYK Model.PDA Model.Simulate.
+From GT Require Import Proofs.PartitionDefs Proofs.MinimizeFinal Proofs.PurityProofs.
+From GT Require Proofs.ChomskyEpsUnitProofs Properties.C04.
+From Coq Require Import Permutation.
+
+(* words over the alphabet of D *)
+Definition W (D : dfa nat) (w : word) : Prop := Forall (fun a => In a (dS D)) w.
+
+(* ---------------- epsilon closure ---------------- *)
+Theorem C19_eclose_pick_independent : forall (N : nfa nat) (pick1 pick2 : picker nat) (S0 r1 r2 : list nat),
+  nfa_wf N -> picker_ok pick1 -> picker_ok pick2 -> incl S0 (nQ N) ->
+  eclose_with pick1 N S0 = Some r1 -> eclose_with pick2 N S0 = Some r2 -> seteq r1 r2.
+Proof. exact (fun N pick1 pick2 S0 r1 r2 => eclose_pick_independent N pick1 pick2 S0 r1 r2). Qed.
+
+Theorem C19_eclose_pick_independent_total : forall (N : nfa nat) (pick1 pick2 : picker nat) (S0 : list nat),
+  nfa_wf N -> picker_ok pick1 -> picker_ok pick2 -> incl S0 (nQ N) ->
+  exists r1 r2, eclose_with pick1 N S0 = Some r1 /\ eclose_with pick2 N S0 = Some r2 /\
+                seteq r1 r2 /\ length r1 = length r2.
+Proof. exact (fun N pick1 pick2 S0 => eclose_pick_independent_total N pick1 pick2 S0). Qed.
+
+(* ---------------- the three minimisers ---------------- *)
+(* any two automata that satisfy the common specification C04_spec of the minimisers *)
+Theorem C19_min_spec_unique : forall (D : dfa nat) (D1 D2 : dfa (list nat)), C04.C04_spec D D1 -> C04.C04_spec D D2 ->
+  (forall w, W D w -> (dfa_lang D1 w <-> dfa_lang D2 w)) /\
+  dS D1 = dS D2 /\
+  length (dQ D1) = length (dQ D2) /\
+  (forall S1, In S1 (dQ D1) -> exists S2, In S2 (dQ D2) /\ seteq S1 S2).
+Proof. exact (fun D D1 D2 => min_spec_unique D D1 D2). Qed.
+
+(* D' is the result of some run of one of the three minimisers, for some admissible naming function (canon: any
+   function that lists the members of a set; the library uses print_state_set = canon_nat), iteration orders,
+   representative function and picker *)
+Definition C19_min_run (D : dfa nat) (D' : dfa (list nat)) : Prop :=
+  exists canon : list nat -> list nat, (forall l y, In y (canon l) <-> In y l) /\
+    ((exists ord : list nat -> list nat, (forall l, Permutation (ord l) l) /\ dfa_minimize canon ord D = Some D') \/
+     (exists (ord : list nat -> list nat) (rep : list nat -> option nat),
+        (forall l, Permutation (ord l) l) /\ (forall l, l <> [] -> exists x, rep l = Some x /\ In x l) /\
+        dfa_quotient canon ord rep D = Some D') \/
+     (exists (ordB : list (list nat) -> list (list nat)) (pick : picker (list nat * nat)),
+        (forall l, Permutation (ordB l) l) /\ picker_ok pick /\ dfa_hopcroft canon ordB pick D = Some D')).
+
+(* all nine combinations of two runs in one statement *)
+Theorem C19_minimisers_order_independent : forall (D : dfa nat) (D1 D2 : dfa (list nat)),
+  dfa_wf D -> NoDup (dQ D) -> NoDup (dF D) -> C19_min_run D D1 -> C19_min_run D D2 ->
+  (forall w, W D w -> (dfa_lang D1 w <-> dfa_lang D2 w)) /\
+  dS D1 = dS D2 /\
+  length (dQ D1) = length (dQ D2) /\
+  (forall S1, In S1 (dQ D1) -> exists S2, In S2 (dQ D2) /\ seteq S1 S2).
+Proof. exact (fun D D1 D2 => minimisers_order_independent D D1 D2). Qed.
+
+(* an explicit instance: table filling against Hopcroft, with the library's naming function *)
+Theorem C19_minimize_vs_hopcroft : forall (ord : list nat -> list nat) (ordB : list (list nat) -> list (list nat))
+    (pick : picker (list nat * nat)) (D : dfa nat) (D1 D2 : dfa (list nat)),
+  (forall l, Permutation (ord l) l) -> (forall l, Permutation (ordB l) l) -> picker_ok pick ->
+  dfa_wf D -> NoDup (dQ D) -> NoDup (dF D) ->
+  dfa_minimize canon_nat ord D = Some D1 -> dfa_hopcroft canon_nat ordB pick D = Some D2 ->
+  (forall w, W D w -> (dfa_lang D1 w <-> dfa_lang D2 w)) /\
+  dS D1 = dS D2 /\
+  length (dQ D1) = length (dQ D2) /\
+  (forall S1, In S1 (dQ D1) -> exists S2, In S2 (dQ D2) /\ seteq S1 S2).
+Proof.
+  exact (fun ord ordB pick D D1 D2 Hord HordB Hpick Hwf HndQ HndF E1 E2 =>
+    minimisers_order_independent D D1 D2 Hwf HndQ HndF
+      (ex_intro _ canon_nat (conj (fun l y => canon_nat_In y l) (or_introl (ex_intro _ ord (conj Hord E1)))))
+      (ex_intro _ canon_nat (conj (fun l y => canon_nat_In y l)
+         (or_intror (or_intror (ex_intro _ ordB (ex_intro _ pick (conj HordB (conj Hpick E2))))))))).
+Qed.
+
+(* ---------------- isomorphism tests ---------------- *)
+Theorem C19_iso_pick_independent : forall (D1 D2 : dfa nat) (pick1 pick2 : picker (nat * nat)),
+  dfa_wf D1 -> dfa_wf D2 -> seteq (dS D1) (dS D2) -> picker_ok pick1 -> picker_ok pick2 ->
+  iso_matrix pick1 D1 D2 = iso_matrix pick2 D1 D2 /\
+  iso1 pick1 D1 D2 = iso1 pick2 D1 D2 /\
+  iso_matrix pick1 D1 D2 = iso1 pick2 D1 D2.
+Proof. exact (fun D1 D2 pick1 pick2 => iso_pick_independent D1 D2 pick1 pick2). Qed.
+
+(* ---------------- dfa_to_regexp ---------------- *)
+Theorem C19_dfa_to_regexp_order_independent : forall (start accept : nat) (order1 order2 : list nat) (D : dfa nat) (r1 r2 : re),
+  dfa_wf D -> NoDup (map fst (dD D)) -> NoDup (dQ D) -> start <> accept ->
+  Permutation order1 (dQ D) -> Permutation order2 (dQ D) ->
+  dfa_to_regexp start accept order1 D = Some r1 -> dfa_to_regexp start accept order2 D = Some r2 ->
+  forall w, re_lang r1 w <-> re_lang r2 w.
+Proof. exact (fun start accept order1 order2 D r1 r2 => dfa_to_regexp_order_independent start accept order1 order2 D r1 r2). Qed.
+
+Theorem C19_dfa_to_regexp_order_independent_fail : forall (start accept : nat) (order1 order2 : list nat) (D : dfa nat),
+  dfa_to_regexp start accept order1 D = None <-> dfa_to_regexp start accept order2 D = None.
+Proof. exact (fun start accept order1 order2 D => dfa_to_regexp_order_independent_fail start accept order1 order2 D). Qed.
+
+(* ---------------- Chomsky normal form, CFG membership and enumeration ---------------- *)
+(* ChomskyEpsUnitProofs.names_disjoint G := forall x, In x (gV G) -> ~ In x (gSg G);
+   ChomskyEpsUnitProofs.perm_order ordV  := forall l, Permutation (ordV l) l *)
+Theorem C19_elim_unit_order_independent : forall (ordV1 ordV2 : list nat -> list nat) (G G1 G2 : cfg),
+  cfg_wf G -> ChomskyEpsUnitProofs.names_disjoint G ->
+  ChomskyEpsUnitProofs.perm_order ordV1 -> ChomskyEpsUnitProofs.perm_order ordV2 ->
+  elim_unit ordV1 G = Some G1 -> elim_unit ordV2 G = Some G2 ->
+  gV G1 = gV G2 /\ gSg G1 = gSg G2 /\ gS G1 = gS G2 /\
+  forall A rhs, has_rule G1 A rhs <-> has_rule G2 A rhs.
+Proof. exact elim_unit_order_independent. Qed.
+
+Theorem C19_to_chomsky_order_independent : forall (ordV1 ordV2 : list nat -> list nat) (stream1 stream2 : list nat)
+    (G G1 : cfg) (rest1 : list nat) (G2 : cfg) (rest2 : list nat),
+  cfg_wf G -> ChomskyEpsUnitProofs.names_disjoint G -> In (gS G) (gV G) ->
+  ChomskyEpsUnitProofs.perm_order ordV1 -> ChomskyEpsUnitProofs.perm_order ordV2 ->
+  (forall x, In x stream1 -> ~ In x (gSg G)) -> (forall x, In x stream2 -> ~ In x (gSg G)) ->
+  to_chomsky ordV1 stream1 G = Some (G1, rest1) -> to_chomsky ordV2 stream2 G = Some (G2, rest2) ->
+  gSg G1 = gSg G2 /\ forall w, cfg_lang G1 w <-> cfg_lang G2 w.
+Proof. exact to_chomsky_order_independent. Qed.
+
+Theorem C19_cfg_accepts_order_independent : forall (ordV1 ordV2 : list nat -> list nat) (stream1 stream2 : list nat)
+    (G : cfg) (w : word) (b1 b2 : bool),
+  cfg_wf G -> ChomskyEpsUnitProofs.names_disjoint G -> In (gS G) (gV G) ->
+  ChomskyEpsUnitProofs.perm_order ordV1 -> ChomskyEpsUnitProofs.perm_order ordV2 ->
+  (forall x, In x stream1 -> ~ In x (gSg G)) -> (forall x, In x stream2 -> ~ In x (gSg G)) ->
+  cfg_accepts ordV1 stream1 G w = Some b1 -> cfg_accepts ordV2 stream2 G w = Some b2 -> b1 = b2.
+Proof. exact cfg_accepts_order_independent. Qed.
+
+Theorem C19_cfg_words_order_independent : forall (ordV1 ordV2 : list nat -> list nat) (stream1 stream2 : list nat)
+    (G : cfg) (n : nat) (L1 L2 : list word),
+  cfg_wf G -> ChomskyEpsUnitProofs.names_disjoint G -> In (gS G) (gV G) ->
+  ChomskyEpsUnitProofs.perm_order ordV1 -> ChomskyEpsUnitProofs.perm_order ordV2 ->
+  (forall x, In x stream1 -> ~ In x (gSg G)) -> (forall x, In x stream2 -> ~ In x (gSg G)) ->
+  cfg_words ordV1 stream1 G n = Some L1 -> cfg_words ordV2 stream2 G n = Some L2 -> seteq L1 L2.
+Proof. exact cfg_words_order_independent. Qed.
+
+(* ---------------- PDA simulation (second component false / [] = the run was not truncated by the limit) ---------------- *)
+Theorem C19_pda_accepts_pick_independent : forall (pick1 pick2 : picker config) (P : pda) (limit1 limit2 : nat) (w : word) (v1 v2 : bool),
+  picker_ok pick1 -> picker_ok pick2 ->
+  pda_accepts pick1 P limit1 w = (v1, false) -> pda_accepts pick2 P limit2 w = (v2, false) -> v1 = v2.
+Proof. exact pda_accepts_pick_independent. Qed.
+
+Theorem C19_pda_words_pick_independent : forall (pick1 pick2 : picker config) (P : pda) (limit1 limit2 n : nat) (L1 L2 : list word),
+  picker_ok pick1 -> picker_ok pick2 ->
+  pda_words pick1 P limit1 n = (L1, false) -> pda_words pick2 P limit2 n = (L2, false) -> seteq L1 L2.
+Proof. exact pda_words_pick_independent. Qed.
+
+Theorem C19_pda_eclose_pick_independent : forall (pick1 pick2 : picker config) (P : pda) (limit1 limit2 : nat) (R res1 res2 : list config),
+  picker_ok pick1 -> picker_ok pick2 ->
+  pda_eclose pick1 P limit1 R = (res1, []) -> pda_eclose pick2 P limit2 R = (res2, []) -> seteq res1 res2.
+Proof. exact pda_eclose_pick_independent. Qed.
+
+(* ---------------- nfa_simulate_word ---------------- *)
+Theorem C19_nfa_simulate_pick_independent_verdict : forall (pick1 pick2 : picker nat) (N : nfa nat) (w : word),
+  picker_ok pick1 -> picker_ok pick2 -> nfa_wf N -> Forall (fun a => In a (nS N)) w ->
+  (nfa_accepts N w = Some true /\
+   exists run1 run2, nfa_simulate pick1 N w = Some run1 /\ nfa_simulate pick2 N w = Some run2 /\
+                     nfa_run_ok N w run1 = true /\ nfa_run_ok N w run2 = true) \/
+  (nfa_accepts N w = Some false /\ nfa_simulate pick1 N w = None /\ nfa_simulate pick2 N w = None).
+Proof. exact (fun pick1 pick2 N w => nfa_simulate_pick_independent_verdict pick1 pick2 N w). Qed.
+
+(* ---------------- listing order of sets and dicts ---------------- *)
+Theorem C19_lookup_perm : forall (V : Type) (k : nat * nat) (m1 m2 : list ((nat * nat) * V)),
+  NoDup (map fst m1) -> Permutation m1 m2 -> lookup k m1 = lookup k m2.
+Proof. exact (fun V k m1 m2 => lookup_perm k m1 m2). Qed.
+
+Theorem C19_dfa_accepts_perm : forall (D1 D2 : dfa nat) (w : word), NoDup (map fst (dD D1)) ->
+  Permutation (dQ D1) (dQ D2) /\ Permutation (dS D1) (dS D2) /\ Permutation (dD D1) (dD D2) /\
+  dq0 D1 = dq0 D2 /\ Permutation (dF D1) (dF D2) ->
+  dfa_accepts D1 w = dfa_accepts D2 w.
+Proof. exact (fun D1 D2 w => dfa_accepts_perm D1 D2 w). Qed.
+
+Theorem C19_dfa_wf_perm : forall (D1 D2 : dfa nat), NoDup (map fst (dD D1)) ->
+  Permutation (dQ D1) (dQ D2) /\ Permutation (dS D1) (dS D2) /\ Permutation (dD D1) (dD D2) /\
+  dq0 D1 = dq0 D2 /\ Permutation (dF D1) (dF D2) ->
+  dfa_wf D1 -> dfa_wf D2.
+Proof. exact (fun D1 D2 => dfa_wf_perm D1 D2). Qed.
+
+(* two valid NFAs with the same start state, epsilon symbol, accepting set and transition relation (as sets) *)
+Theorem C19_nfa_accepts_same : forall (N1 N2 : nfa nat) (w : word), nfa_wf N1 -> nfa_wf N2 ->
+  nq0 N1 = nq0 N2 /\ neps N1 = neps N2 /\ seteq (nF N1) (nF N2) /\
+  (forall q a, seteq (ndelta N1 q a) (ndelta N2 q a)) ->
+  Forall (fun a => In a (nS N1)) w -> Forall (fun a => In a (nS N2)) w ->
+  nfa_accepts N1 w = nfa_accepts N2 w.
+Proof. exact (fun N1 N2 w => nfa_accepts_same N1 N2 w). Qed.
+
+(* N2 = N1 with Q, Sigma, F, every target set and the items of the transition dict listed in another order *)
+Theorem C19_nfa_accepts_perm : forall (N1 N2 : nfa nat) (w : word), nfa_wf N1 -> NoDup (map fst (nD N1)) ->
+  Permutation (nQ N1) (nQ N2) /\ Permutation (nS N1) (nS N2) /\ nq0 N1 = nq0 N2 /\ neps N1 = neps N2 /\
+  Permutation (nF N1) (nF N2) /\
+  (exists d, Permutation (nD N1) d /\
+             Forall2 (fun e1 e2 => fst e1 = fst e2 /\ Permutation (snd e1) (snd e2)) d (nD N2)) ->
+  Forall (fun a => In a (nS N1)) w -> nfa_accepts N1 w = nfa_accepts N2 w.
+Proof. exact (fun N1 N2 w => nfa_accepts_perm N1 N2 w). Qed.
+
+Theorem C19_nfa_wf_perm : forall (N1 N2 : nfa nat),
+  Permutation (nQ N1) (nQ N2) /\ Permutation (nS N1) (nS N2) /\ nq0 N1 = nq0 N2 /\ neps N1 = neps N2 /\
+  Permutation (nF N1) (nF N2) /\
+  (exists d, Permutation (nD N1) d /\
+             Forall2 (fun e1 e2 => fst e1 = fst e2 /\ Permutation (snd e1) (snd e2)) d (nD N2)) ->
+  nfa_wf N1 -> nfa_wf N2.
+Proof. exact (fun N1 N2 => nfa_wf_perm N1 N2). Qed.
+
+Print Assumptions C19_eclose_pick_independent.
+Print Assumptions C19_eclose_pick_independent_total.
+Print Assumptions C19_min_spec_unique.
+Print Assumptions C19_minimisers_order_independent.
+Print Assumptions C19_minimize_vs_hopcroft.
+Print Assumptions C19_iso_pick_independent.
+Print Assumptions C19_dfa_to_regexp_order_independent.
+Print Assumptions C19_dfa_to_regexp_order_independent_fail.
+Print Assumptions C19_elim_unit_order_independent.
+Print Assumptions C19_to_chomsky_order_independent.
+Print Assumptions C19_cfg_accepts_order_independent.
+Print Assumptions C19_cfg_words_order_independent.
+Print Assumptions C19_pda_accepts_pick_independent.
+Print Assumptions C19_pda_words_pick_independent.
+Print Assumptions C19_pda_eclose_pick_independent.
+Print Assumptions C19_nfa_simulate_pick_independent_verdict.
+Print Assumptions C19_lookup_perm.
+Print Assumptions C19_dfa_accepts_perm.
+Print Assumptions C19_dfa_wf_perm.
+Print Assumptions C19_nfa_accepts_same.
+Print Assumptions C19_nfa_accepts_perm.
+Print Assumptions C19_nfa_wf_perm.
